@@ -1204,37 +1204,65 @@ class PendingClassDef(_PendingCompoundStmt[ClassDef]):
 
         class_bases = [expr_transf(self.nsp, _expr) for _expr in self.node.bases]
 
-        metaclass_expr = None
-        class_keywords = []
-        for _keyword in self.node.keywords:
-            if _keyword.arg == "metaclass":
-                # filter the metaclass keyword
-                metaclass_expr = expr_transf(self.nsp, _keyword.value)
-                continue
-            class_keywords.append(
-                keyword(
-                    arg=_keyword.arg,
-                    value=expr_transf(self.nsp, _keyword.value),
-                )
+        has_metaclass = any(_kw.arg == "metaclass" for _kw in self.node.keywords)
+        class_keywords = [
+            keyword(arg=_kw.arg, value=expr_transf(self.nsp, _kw.value))
+            for _kw in self.node.keywords
+        ]
+
+        if not has_metaclass:
+            create_expr: expr = Call(
+                func=Name(id="type", ctx=Load()),
+                args=[
+                    Constant(value=self.node.name),
+                    Tuple(elts=class_bases, ctx=Load()),
+                    Dict(keys=[], values=[]),
+                ],
+                keywords=class_keywords,
             )
-
-        if metaclass_expr is None:
-            metaclass_expr = Name(id="type", ctx=Load())
-
-        return_list.append(
-            self.nsp.get_assign(
-                self.node.name,
-                Call(
-                    func=metaclass_expr,
-                    args=[
-                        Constant(value=self.node.name),
-                        Tuple(elts=class_bases, ctx=Load()),
-                        Dict(keys=[], values=[]),
-                    ],
-                    keywords=class_keywords,
+        else:
+            # Python evaluates the bases first and then the keywords in the
+            # order they are written, `metaclass=` among them. Calling the
+            # metaclass expression directly would evaluate it before the
+            # bases, so bases and keywords are passed (in that order) to a
+            # helper that takes the metaclass out of the keywords
+            bases_name = ol_name(OL_CLASS_BASES)
+            kwds_name = ol_name(OL_CLASS_KEYWORDS)
+            create_expr = Call(
+                func=Lambda(
+                    args=arguments(
+                        posonlyargs=[],
+                        args=[arg(arg=bases_name)],
+                        kwonlyargs=[],
+                        kw_defaults=[],
+                        kwarg=arg(arg=kwds_name),
+                        defaults=[],
+                    ),
+                    body=Call(
+                        func=Call(
+                            func=Attribute(
+                                value=Name(id=kwds_name, ctx=Load()),
+                                attr="pop",
+                                ctx=Load(),
+                            ),
+                            args=[Constant(value="metaclass")],
+                            keywords=[],
+                        ),
+                        args=[
+                            Constant(value=self.node.name),
+                            Name(id=bases_name, ctx=Load()),
+                            Dict(keys=[], values=[]),
+                        ],
+                        keywords=[
+                            keyword(arg=None, value=Name(id=kwds_name, ctx=Load()))
+                        ],
+                    ),
                 ),
+                args=[Tuple(elts=class_bases, ctx=Load())],
+                keywords=class_keywords,
             )
-        )
+
+        return_list.append(self.nsp.get_assign(self.node.name, create_expr))
 
         class_body: list[expr] = []
         class_body.append(
